@@ -275,4 +275,254 @@ theorem char_spendFold (p : Params) (t : Tx) (bm : BlockMeta) (is : List Inp) :
         · simp only [hdep]
           rfl
 
+-- ------------------------------------------------------------------ the create fold and the deposit fold
+
+theorem char_createB_same (p : Params) (own : Own) (t : Tx) (bm : BlockMeta) (B : Book) (j : Nat) (o : Out) :
+    (createB p own t bm B j o).debits = B.debits ∧ (createB p own t bm B j o).game = B.game := by
+  unfold createB
+  cases h : ownerOf own o <;> exact ⟨rfl, rfl⟩
+
+/-- THE CREATE FOLD, pointwise: an unspent credit for every owned output, other keys keep their values;
+    debits and deposit records untouched -/
+theorem char_createFold (p : Params) (own : Own) (t : Tx) (bm : BlockMeta) (os : List Out) :
+    ∀ (j : Nat) (B : Book),
+    (∀ (m : Nat) (o : Out) (w : Wid) (ch : Bool), os[m]? = some o → ownerOf own o = some (w, ch) →
+      (foldIdx (createB p own t bm) os j B).credits ⟨t.id, bm, j + m⟩ =
+        some (creditOf p ⟨w, t.id, j + m, bm, t.cb, o, ch⟩)) ∧
+    (∀ ck, (∀ (m : Nat) (o : Out), os[m]? = some o → (ownerOf own o).isSome = true →
+        (⟨t.id, bm, j + m⟩ : CredKey) ≠ ck) →
+      (foldIdx (createB p own t bm) os j B).credits ck = B.credits ck) ∧
+    (foldIdx (createB p own t bm) os j B).debits = B.debits ∧
+    (foldIdx (createB p own t bm) os j B).game = B.game := by
+  induction os with
+  | nil =>
+    intro j B
+    refine ⟨?_, ?_, rfl, rfl⟩
+    · intro m o w ch h; simp at h
+    · intro ck _; rfl
+  | cons o0 os ih =>
+    intro j B
+    obtain ⟨ihA, ihC, ihD, ihG⟩ := ih (j + 1) (createB p own t bm B j o0)
+    simp only [foldIdx_cons]
+    obtain ⟨hd0, hg0⟩ := char_createB_same p own t bm B j o0
+    refine ⟨?_, ?_, ihD.trans hd0, ihG.trans hg0⟩
+    · intro m o w ch hm ho
+      cases m with
+      | zero =>
+        simp only [List.getElem?_cons_zero, Option.some.injEq] at hm
+        subst hm
+        rw [ihC ⟨t.id, bm, j + 0⟩ (fun m o _ _ => by intro h; injection h with _ _ h3; omega),
+          (createB_owned (p := p) (t := t) (bm := bm) (B := B) (j := j) ho).2]
+        simp [upd_apply]
+      | succ m =>
+        simp only [List.getElem?_cons_succ] at hm
+        have := ihA m o w ch hm ho
+        rw [show j + 1 + m = j + (m + 1) by omega] at this
+        exact this
+    · intro ck h
+      have h1 : (foldIdx (createB p own t bm) os (j + 1) (createB p own t bm B j o0)).credits ck =
+          (createB p own t bm B j o0).credits ck := by
+        apply ihC ck
+        intro m o hm ho
+        have := h (m + 1) o (by simpa using hm) ho
+        rw [show j + (m + 1) = j + 1 + m by omega] at this
+        exact this
+      rw [h1]
+      cases ho : ownerOf own o0 with
+      | none => rw [createB_none ho]
+      | some wc =>
+        obtain ⟨w, ch⟩ := wc
+        rw [(createB_owned (p := p) (t := t) (bm := bm) (B := B) (j := j) ho).2]
+        have : ¬ ((⟨t.id, bm, j⟩ : CredKey) = ck) := h 0 o0 rfl (by rw [ho]; rfl)
+        simp only [upd_apply, this, if_false]
+
+/-- a deposit record present after the deposit fold was there before or is the (un-withdrawn) record of an
+    owned staking / binding output -/
+theorem char_depositFold_back (own : Own) (t : Tx) (bm : BlockMeta) (os : List Out) :
+    ∀ (j : Nat) (B : Book) (gk : GameKey), (foldIdx (depositB own t bm) os j B).game gk = some () →
+      B.game gk = some () ∨
+      ∃ (m : Nat) (o : Out) (w : Wid) (ch : Bool), os[m]? = some o ∧ ownerOf own o = some (w, ch) ∧
+        isDeposit o.cls = true ∧ gk = ⟨w, o.cls.isBinding, false, t.id, bm.height, j + m⟩ := by
+  induction os with
+  | nil => intro j B gk h; exact Or.inl h
+  | cons o0 os ih =>
+    intro j B gk h
+    rw [foldIdx_cons] at h
+    rcases ih (j + 1) _ gk h with h1 | ⟨m, o, w, ch, hm, ho, hd, hk⟩
+    · unfold depositB at h1
+      cases ho : ownerOf own o0 with
+      | none => rw [ho] at h1; exact Or.inl h1
+      | some wc =>
+        obtain ⟨w, ch⟩ := wc
+        rw [ho] at h1
+        by_cases hd : isDeposit o0.cls = true
+        · simp only [hd, if_true, upd_apply] at h1
+          by_cases hk : (⟨w, o0.cls.isBinding, false, t.id, bm.height, j⟩ : GameKey) = gk
+          · exact Or.inr ⟨0, o0, w, ch, rfl, ho, hd, hk.symm⟩
+          · simp only [hk, if_false] at h1; exact Or.inl h1
+        · simp only [hd] at h1; exact Or.inl h1
+    · exact Or.inr ⟨m + 1, o, w, ch, by simpa using hm, ho, hd, by rw [hk, show j + 1 + m = j + (m + 1) by omega]⟩
+
+-- ------------------------------------------------------------------ one transaction
+
+theorem char_recStep_debits (own : Own) (B : Book) (oc : Occ) : (recStep own B oc).debits = B.debits := by
+  unfold recStep; by_cases h : touches own B oc.t = true <;> simp [h, recordB]
+
+/-- the spend step of `applyOcc` (after the record step), in terms of the books before the transaction -/
+theorem char_spendStep (p : Params) (own : Own) (B : Book) (oc : Occ)
+    (hnd : oc.t.cb = false → (oc.t.ins.map opOf).Nodup) :
+    (∀ (m : Nat) (i : Inp) (u : UCoin), oc.t.cb = false → oc.t.ins[m]? = some i →
+      lookupU B.L i.tx i.idx = some u →
+      (spendStep p (recStep own B oc) oc).credits u.credKey = some (spentCredit p u ⟨oc.t.id, oc.bm, m⟩) ∧
+      (spendStep p (recStep own B oc) oc).debits ⟨oc.t.id, oc.bm, m⟩ = some (u.out.amt, u.credKey) ∧
+      (isDeposit u.out.cls = true →
+        (spendStep p (recStep own B oc) oc).game (u.gameKey true) = some () ∧
+        (spendStep p (recStep own B oc) oc).game (u.gameKey false) = none)) ∧
+    (∀ ck, (∀ (m : Nat) (i : Inp) (u : UCoin), oc.t.cb = false → oc.t.ins[m]? = some i →
+        lookupU B.L i.tx i.idx = some u → u.credKey ≠ ck) →
+      (spendStep p (recStep own B oc) oc).credits ck = B.credits ck) ∧
+    (∀ dk, (∀ (m : Nat) (i : Inp) (u : UCoin), oc.t.cb = false → oc.t.ins[m]? = some i →
+        lookupU B.L i.tx i.idx = some u → (⟨oc.t.id, oc.bm, m⟩ : CredKey) ≠ dk) →
+      (spendStep p (recStep own B oc) oc).debits dk = B.debits dk) ∧
+    (∀ gk, (∀ (m : Nat) (i : Inp) (u : UCoin), oc.t.cb = false → oc.t.ins[m]? = some i →
+        lookupU B.L i.tx i.idx = some u → isDeposit u.out.cls = true →
+        u.gameKey true ≠ gk ∧ u.gameKey false ≠ gk) →
+      (spendStep p (recStep own B oc) oc).game gk = B.game gk) := by
+  unfold spendStep
+  by_cases hcb : oc.t.cb = true
+  · simp only [hcb, if_true]
+    refine ⟨?_, ?_, ?_, ?_⟩
+    · intro m i u h; cases h
+    · intro ck _; rw [recStep_credits]
+    · intro dk _; rw [char_recStep_debits]
+    · intro gk _; rw [recStep_game]
+  · have hcb' : oc.t.cb = false := by simpa using hcb
+    rw [if_neg hcb]
+    obtain ⟨hA, hC, hD, hG⟩ := char_spendFold p oc.t oc.bm oc.t.ins 0 (recStep own B oc) (hnd hcb')
+    simp only [recStep_L, recStep_credits, char_recStep_debits, recStep_game, Nat.zero_add] at hA hC hD hG
+    exact ⟨fun m i u _ hm hu => hA m i u hm hu, fun ck h => hC ck (fun m i u hm hu => h m i u hcb' hm hu),
+      fun dk h => hD dk (fun m i u hm hu => h m i u hcb' hm hu),
+      fun gk h => hG gk (fun m i u hm hu hd => h m i u hcb' hm hu hd)⟩
+
+/-- CREDITS after one transaction: new unspent credits for its owned outputs, the hits marked spent,
+    every other key as before -/
+theorem char_applyOcc_credits (p : Params) (own : Own) (B : Book) (oc : Occ)
+    (hnd : oc.t.cb = false → (oc.t.ins.map opOf).Nodup) :
+    (∀ (m : Nat) (o : Out) (w : Wid) (ch : Bool), oc.t.outs[m]? = some o → ownerOf own o = some (w, ch) →
+      (applyOcc p own B oc).credits ⟨oc.t.id, oc.bm, m⟩ =
+        some (creditOf p ⟨w, oc.t.id, m, oc.bm, oc.t.cb, o, ch⟩)) ∧
+    (∀ (m : Nat) (i : Inp) (u : UCoin), oc.t.cb = false → oc.t.ins[m]? = some i →
+      lookupU B.L i.tx i.idx = some u → u.tx ≠ oc.t.id →
+      (applyOcc p own B oc).credits u.credKey = some (spentCredit p u ⟨oc.t.id, oc.bm, m⟩)) ∧
+    (∀ ck, (∀ (m : Nat) (i : Inp) (u : UCoin), oc.t.cb = false → oc.t.ins[m]? = some i →
+        lookupU B.L i.tx i.idx = some u → u.credKey ≠ ck) →
+      (∀ (m : Nat) (o : Out), oc.t.outs[m]? = some o → (ownerOf own o).isSome = true →
+        (⟨oc.t.id, oc.bm, m⟩ : CredKey) ≠ ck) →
+      (applyOcc p own B oc).credits ck = B.credits ck) := by
+  obtain ⟨sA, sC, _, _⟩ := char_spendStep p own B oc hnd
+  obtain ⟨cA, cC, _, _⟩ := char_createFold p own oc.t oc.bm oc.t.outs 0 (spendStep p (recStep own B oc) oc)
+  simp only [Nat.zero_add] at cA cC
+  rw [applyOcc_eq, (depositFold_L ..).2.1]
+  refine ⟨cA, ?_, ?_⟩
+  · intro m i u hcb hm hu hne
+    rw [cC u.credKey (fun m' o _ _ => by
+      intro h; exact hne (congrArg CredKey.tx h).symm)]
+    exact (sA m i u hcb hm hu).1
+  · intro ck h1 h2
+    rw [cC ck h2]
+    exact sC ck h1
+
+/-- DEBITS after one transaction: one debit per hit, every other key as before -/
+theorem char_applyOcc_debits (p : Params) (own : Own) (B : Book) (oc : Occ)
+    (hnd : oc.t.cb = false → (oc.t.ins.map opOf).Nodup) :
+    (∀ (m : Nat) (i : Inp) (u : UCoin), oc.t.cb = false → oc.t.ins[m]? = some i →
+      lookupU B.L i.tx i.idx = some u →
+      (applyOcc p own B oc).debits ⟨oc.t.id, oc.bm, m⟩ = some (u.out.amt, u.credKey)) ∧
+    (∀ dk, (∀ (m : Nat) (i : Inp) (u : UCoin), oc.t.cb = false → oc.t.ins[m]? = some i →
+        lookupU B.L i.tx i.idx = some u → (⟨oc.t.id, oc.bm, m⟩ : CredKey) ≠ dk) →
+      (applyOcc p own B oc).debits dk = B.debits dk) := by
+  obtain ⟨sA, _, sD, _⟩ := char_spendStep p own B oc hnd
+  obtain ⟨_, _, cD, _⟩ := char_createFold p own oc.t oc.bm oc.t.outs 0 (spendStep p (recStep own B oc) oc)
+  rw [applyOcc_eq, (depositFold_L ..).2.2.1, cD]
+  exact ⟨fun m i u hcb hm hu => (sA m i u hcb hm hu).2.1, sD⟩
+
+/-- the deposit-record table after one transaction is the deposit fold over the table after the spend step -/
+theorem char_applyOcc_game_eq (p : Params) (own : Own) (B : Book) (oc : Occ) :
+    ∃ B3 : Book, B3.game = (spendStep p (recStep own B oc) oc).game ∧
+      applyOcc p own B oc = foldIdx (depositB own oc.t oc.bm) oc.t.outs 0 B3 :=
+  ⟨_, (char_createFold p own oc.t oc.bm oc.t.outs 0 _).2.2.2, applyOcc_eq p own B oc⟩
+
+/-- DEPOSIT RECORDS after one transaction, backwards: a record is new (un-withdrawn, for an owned deposit
+    output), or the withdrawn record of a hit, or an old record that is no record of a hit -/
+theorem char_applyOcc_game_back (p : Params) (own : Own) (B : Book) (oc : Occ)
+    (hnd : oc.t.cb = false → (oc.t.ins.map opOf).Nodup) (gk : GameKey)
+    (h : (applyOcc p own B oc).game gk = some ()) :
+    (∃ (m : Nat) (o : Out) (w : Wid) (ch : Bool), oc.t.outs[m]? = some o ∧ ownerOf own o = some (w, ch) ∧
+        isDeposit o.cls = true ∧ gk = ⟨w, o.cls.isBinding, false, oc.t.id, oc.bm.height, m⟩) ∨
+    (∃ (m : Nat) (i : Inp) (u : UCoin), oc.t.cb = false ∧ oc.t.ins[m]? = some i ∧
+        lookupU B.L i.tx i.idx = some u ∧ isDeposit u.out.cls = true ∧ gk = u.gameKey true) ∨
+    (B.game gk = some () ∧
+      ∀ (m : Nat) (i : Inp) (u : UCoin), oc.t.cb = false → oc.t.ins[m]? = some i →
+        lookupU B.L i.tx i.idx = some u → isDeposit u.out.cls = true →
+        u.gameKey true ≠ gk ∧ u.gameKey false ≠ gk) := by
+  obtain ⟨B3, hB3, hEq⟩ := char_applyOcc_game_eq p own B oc
+  obtain ⟨sA, _, _, sG⟩ := char_spendStep p own B oc hnd
+  rw [hEq] at h
+  rcases char_depositFold_back own oc.t oc.bm oc.t.outs 0 B3 gk h with h1 | ⟨m, o, w, ch, hm, ho, hd, hk⟩
+  · right
+    rw [hB3] at h1
+    by_cases hex : ∃ (m : Nat) (i : Inp) (u : UCoin), oc.t.cb = false ∧ oc.t.ins[m]? = some i ∧
+        lookupU B.L i.tx i.idx = some u ∧ isDeposit u.out.cls = true ∧ (gk = u.gameKey true ∨ gk = u.gameKey false)
+    · obtain ⟨m, i, u, hcb, hm, hu, hd, hk | hk⟩ := hex
+      · exact Or.inl ⟨m, i, u, hcb, hm, hu, hd, hk⟩
+      · have := ((sA m i u hcb hm hu).2.2 hd).2
+        rw [← hk, h1] at this; cases this
+    · right
+      have hno : ∀ (m : Nat) (i : Inp) (u : UCoin), oc.t.cb = false → oc.t.ins[m]? = some i →
+          lookupU B.L i.tx i.idx = some u → isDeposit u.out.cls = true →
+          u.gameKey true ≠ gk ∧ u.gameKey false ≠ gk := by
+        intro m i u hcb hm hu hd
+        exact ⟨fun e => hex ⟨m, i, u, hcb, hm, hu, hd, Or.inl e.symm⟩,
+          fun e => hex ⟨m, i, u, hcb, hm, hu, hd, Or.inr e.symm⟩⟩
+      refine ⟨?_, hno⟩
+      rw [← sG gk hno]; exact h1
+  · left
+    exact ⟨m, o, w, ch, hm, ho, hd, by rw [hk, Nat.zero_add]⟩
+
+/-- DEPOSIT RECORDS after one transaction, forwards -/
+theorem char_applyOcc_game_new (p : Params) (own : Own) (B : Book) (oc : Occ)
+    {m : Nat} {o : Out} {w : Wid} {ch : Bool} (hm : oc.t.outs[m]? = some o) (ho : ownerOf own o = some (w, ch))
+    (hd : isDeposit o.cls = true) :
+    (applyOcc p own B oc).game ⟨w, o.cls.isBinding, false, oc.t.id, oc.bm.height, m⟩ = some () := by
+  rw [applyOcc_eq]
+  have := depositFold_game own oc.t oc.bm oc.t.outs 0
+    (foldIdx (createB p own oc.t oc.bm) oc.t.outs 0 (spendStep p (recStep own B oc) oc)) m o w ch hm ho hd
+  rw [Nat.zero_add] at this
+  exact this
+
+theorem char_applyOcc_game_hit (p : Params) (own : Own) (B : Book) (oc : Occ)
+    (hnd : oc.t.cb = false → (oc.t.ins.map opOf).Nodup)
+    {m : Nat} {i : Inp} {u : UCoin} (hcb : oc.t.cb = false) (hm : oc.t.ins[m]? = some i)
+    (hu : lookupU B.L i.tx i.idx = some u) (hd : isDeposit u.out.cls = true) :
+    (applyOcc p own B oc).game (u.gameKey true) = some () := by
+  obtain ⟨B3, hB3, hEq⟩ := char_applyOcc_game_eq p own B oc
+  obtain ⟨sA, _, _, _⟩ := char_spendStep p own B oc hnd
+  rw [hEq]
+  apply depositFold_game_mono
+  rw [hB3]
+  exact ((sA m i u hcb hm hu).2.2 hd).1
+
+theorem char_applyOcc_game_keep (p : Params) (own : Own) (B : Book) (oc : Occ)
+    (hnd : oc.t.cb = false → (oc.t.ins.map opOf).Nodup) {gk : GameKey} (h : B.game gk = some ())
+    (hno : ∀ (m : Nat) (i : Inp) (u : UCoin), oc.t.cb = false → oc.t.ins[m]? = some i →
+        lookupU B.L i.tx i.idx = some u → isDeposit u.out.cls = true →
+        u.gameKey true ≠ gk ∧ u.gameKey false ≠ gk) :
+    (applyOcc p own B oc).game gk = some () := by
+  obtain ⟨B3, hB3, hEq⟩ := char_applyOcc_game_eq p own B oc
+  obtain ⟨_, _, _, sG⟩ := char_spendStep p own B oc hnd
+  rw [hEq]
+  apply depositFold_game_mono
+  rw [hB3, sG gk hno]
+  exact h
+
 end MW.Lemmas.Ledger
